@@ -183,7 +183,24 @@ func (fr *frame) runDefers() {
 
 // lookupMethod returns the method set for type typ, which may be one
 // of the interpreter's fake types.
+type methKey struct {
+	t types.Type
+	m *types.Func
+}
+
+var methCache = map[methKey]*ssa.Function{}
+
 func lookupMethod(i *interpreter, typ types.Type, meth *types.Func) *ssa.Function {
+	k := methKey{typ, meth}
+	if f, ok := methCache[k]; ok {
+		return f
+	}
+	f := lookupMethod0(i, typ, meth)
+	methCache[k] = f
+	return f
+}
+
+func lookupMethod0(i *interpreter, typ types.Type, meth *types.Func) *ssa.Function {
 	switch typ {
 	case rtypeType:
 		return i.rtypeMethods[meth.Id()]
@@ -613,7 +630,12 @@ func callSSA(i *interpreter, caller *frame, callpos token.Pos, fn *ssa.Function,
 		panic("interp requires ssa.BuilderMode to include InstantiateGenerics to execute generics")
 	}
 
-	fr.env = make(map[ssa.Value]value)
+	if n := len(envPool); n > 0 {
+		fr.env = envPool[n-1]
+		envPool = envPool[:n-1]
+	} else {
+		fr.env = make(map[ssa.Value]value)
+	}
 	fr.block = fn.Blocks[0]
 	fr.locals = make([]value, len(fn.Locals))
 	for i, l := range fn.Locals {
@@ -636,6 +658,11 @@ func callSSA(i *interpreter, caller *frame, callpos token.Pos, fn *ssa.Function,
 	if X.active {
 		X.cur = caller
 	}
+	if len(fr.env) <= 64 && len(envPool) < 256 {
+		clear(fr.env)
+		envPool = append(envPool, fr.env)
+	}
+	fr.env = nil
 	return fr.result
 }
 
@@ -790,6 +817,7 @@ func newInterpreter(prog *ssa.Program, sizes types.Sizes) *interpreter {
 
 var extCache = map[*ssa.Function]externalFn{}
 var envSize = map[*ssa.Function]int{}
+var envPool []map[ssa.Value]value
 var fnCount map[*ssa.Function]int
 
 // onlyLoaded reports whether every use of the address is a plain load.
